@@ -432,7 +432,8 @@ def run_case(case, workdir):
     import os
     import amr_kitchen.mandoline.cli as mcli
     from ..common import run_cli
-    for m_ in (positions[len(positions) // 4], positions[len(positions) // 2]):
+    # (position 0.0 exactly, where the domain starts there: an option value that is falsy)
+    for m_ in (positions[len(positions) // 4], positions[len(positions) // 2]) + ((0,) if (ref.geo_lo[n] == 0.0 and positions[0] == 0) else ()):
         for limit, serial in ((None, False), (0, True)):
             out = os.path.join(workdir, "cli_out")
             argv = ["mandoline", path, "-f", "array", "-o", out, "-n", str(n), "-p", repr(sm.pos_of(m_)), "-v", "G", "A", "grid_level"] \
